@@ -50,6 +50,9 @@ def items(tier, seed):
     for n in ([1, 2, 3] if q else [1, 2, 3, 4]):
         out.append(dict(name=f"law-n{n}", kind="law", n=n, seed=seed))
     out.append(dict(name="priority-functions", kind="prio", seed=seed))
+    # the |TD error| the critic updates report (and the training loops turn into priorities)
+    for fam in ("td7", "td3_lap", "ddqn_per", "mrq"):
+        out.append(dict(name=f"reported-td-error-{fam}", kind="tderr", fam=fam, tier=tier, seed=seed))
     return out
 
 
@@ -475,7 +478,40 @@ def prio_item(item, col):
     col.sample(dict(kind="priority-functions", abs_td_errors=deltas))
 
 
+class _TdErr:
+    """Collector proxy over C03's float64 reference for the critic losses: only its verdict on the reported
+    per-sample |TD error| (max over both critics of the absolute error) is taken over, under a C08 signature."""
+
+    def __init__(self, col):
+        self._col = col
+
+    def violation(self, signature, detail=None, item=None):
+        parts = signature.split("|")
+        if "td-error" in parts[2]:
+            self._col.violation(SIG.format(parts[1], "reported-td-error-not-the-absolute-td-error"), detail)
+
+    def sample(self, obj):
+        pass
+
+    def __getattr__(self, name):
+        return getattr(self._col, name)
+
+
+def tderr_item(item, col):
+    from checks import c03
+
+    its = [i for i in c03.items(item["tier"], item["seed"]) if i.get("fam") == item["fam"] and i.get("N") == 2]
+    its = its[: (2 if item["tier"] == "quick" else 6)]
+    proxy = _TdErr(col)
+    for it in its:
+        c03.work(it, proxy)
+    col.outcome("critic_loss_items_checked_for_reported_td_error", len(its))
+    col.sample(dict(kind="reported-td-error", family=item["fam"], c03_items=[i["name"] for i in its]))
+
+
 def work(item, col):
+    if item["kind"] == "tderr":
+        return tderr_item(item, col)
     if item["kind"] == "law":
         return law_item(item, col)
     if item["kind"] == "prio":
